@@ -558,7 +558,7 @@ def digest(text: str) -> str:
     return hashlib.sha256(text.encode()).hexdigest()[:16]
 
 
-def is_delegation(async_fn, sync_name: str) -> bool:
+def is_delegation(async_fn, sync_name: str, owners=("self",)) -> bool:
     """``return self.<sync>(<same params>)``: the async member simply calls the sync one."""
     body = body_without_docstring(async_fn)
     if len(body) != 1 or not isinstance(body[0], ast.Return):
@@ -569,7 +569,7 @@ def is_delegation(async_fn, sync_name: str) -> bool:
     if not isinstance(v, ast.Call):
         return False
     f = v.func
-    if isinstance(f, ast.Attribute) and isinstance(f.value, ast.Name) and f.value.id == "self":
+    if isinstance(f, ast.Attribute) and isinstance(f.value, ast.Name) and f.value.id in owners:
         callee = f.attr
     elif isinstance(f, ast.Name):
         callee = f.id
